@@ -47,6 +47,11 @@ def gen_plan(prop, tier, rng, i):
     plan = {"engine": "crashsim", "cfg": cfg.to_json(), "ops": ops}
     if prop == "C02":
         plan["kill_frac"] = rng.random() if (i % 3 == 0) else None
+        if i % 3 == 1:
+            # kill, then a new recorder process restarts inside the period that was in progress
+            plan["restart_frac"] = rng.random()
+            plan["restart_off"] = rng.choice([0.0, 0.0, 0.5, 0.99])
+            plan["restart_nops"] = rng.choice([1, 2])  # (with 1 the refused file is the last one touched before close)
         plan["torn"] = [[rng.random(), rng.random()] for _ in range(6 if thorough else 2)]
     if prop == "C09":
         plan["reader_at_frac"] = sorted(rng.random() for _ in range(2))
@@ -202,6 +207,7 @@ class Observer:
         self.prev_full = None
         self.props_complete = False
         self.state_fps = []
+        self.uuid = cfg.uuid
 
     # ---- helpers
     def _fresh_reader(self, k, where):
@@ -261,7 +267,7 @@ class Observer:
                     self._v("final_file_changed", k, where, "%s changed after publication" % rel)
                 self.sha_seen.setdefault(rel, sha)
                 if (rel, sha) not in self.raw_ok:
-                    errs, _ = RC.check_final_file(cfg, vis, self.chdir, sd, fn, T, uuid=cfg.uuid)
+                    errs, _ = RC.check_final_file(cfg, vis, self.chdir, sd, fn, T, uuid=self.uuid)
                     self._emit(errs, k, where)
                     self.raw_ok.add((rel, sha))
                     res.stat("final_files_inspected")
@@ -454,6 +460,104 @@ def _observe_run(prop, plan, res, kill_at=None, torn_at=None):
             if spans:
                 res.probe("file_spanning_write")
         return oplist, tracker, None
+    finally:
+        if not os.environ.get("VSIM_KEEP"):
+            shutil.rmtree(sc, ignore_errors=True)
+
+
+class _UnionTracker:
+    """visible model = what an earlier (killed) session had finalized + everything the restarted session attempts"""
+
+    def __init__(self, base_model, tracker):
+        self.base, self.t = base_model, tracker
+
+    def feed(self, ev):
+        self.t.feed(ev)
+
+    def visible_model(self):
+        m = M.RFModel(self.t.cfg)
+        m.segs = list(self.base.segs) + list(self.t.attempted.segs)
+        return m
+
+    def __getattr__(self, k):
+        return getattr(self.t, k)
+
+
+def _restart_run(prop, plan, res, kill_at):
+    """C02 extension: the recorder is SIGKILLed at boundary kill_at, then a NEW recorder process is started on
+    the same channel and writes into the very file period that was in progress; every boundary of the second
+    process (and its clean close) is evaluated with the same oracle.  Whatever the first process left in a
+    tmp. file must never appear under a final name."""
+    cfg = M.Cfg(**plan["cfg"])
+    ops = plan["ops"]
+    sc, tree = _mk_tree("rs")
+    try:
+        os.makedirs(os.path.join(tree, cfg.channel))
+        t1 = Tracker(cfg, ops)
+        node = K.Node(tree, _child(tree, cfg, ops), log_path=os.path.join(sc, "node1.log"))
+        k = 0
+        finalized = set()
+        try:
+            while True:
+                ev = node.step()
+                if ev is None:
+                    break
+                if isinstance(ev, dict):
+                    t1.feed(ev)
+                    continue
+                if k == kill_at:
+                    node.kill()
+                    break
+                node.go()
+                if _is_final_rename(ev):
+                    finalized.add(_T_of(ev.p2))
+                k += 1
+        finally:
+            node.kill()
+        chdir = os.path.join(tree, cfg.channel)
+        _, tmp1, _ = RC.final_files(chdir) if os.path.isdir(chdir) else ([], [], [])
+        if not tmp1:
+            res.probe("restart_without_stale_tmp")
+        else:
+            res.probe("restart_with_stale_tmp")
+        base = t1.attempted.restrict_to_files(sorted(finalized))
+        # second recorder: same parameters, starts inside the period that was in progress (or the next one)
+        c2 = M.Cfg(**plan["cfg"])
+        c2.uuid = "restart"
+        if tmp1:
+            Tx = tmp1[-1][2]
+            lo, hi = cfg.window(Tx)
+            c2.start = lo + int(plan.get("restart_off", 0.0) * (hi - lo))
+        else:
+            vb = t1.attempted.bounds_written()
+            c2.start = (vb[1] + 1) if vb else cfg.start
+        cap = cfg.typical_capacity()
+        ops2 = [{"op": "w", "rel": 0, "_rel": 0, "len": max(1, min(cap, 50)), "salt": 7001},
+                {"op": "w", "rel": 2 * cap + 3, "_rel": 2 * cap + 3, "len": max(1, min(cap + 2, 60)), "salt": 7002}]
+        ops2 = ops2[:plan.get("restart_nops", 2)]
+        t2 = _UnionTracker(base, Tracker(c2, ops2))
+        obs = Observer(prop, res, c2, tree, plan)
+        obs.uuid = None
+        # files finalized by the first process are part of the ground truth
+        node = K.Node(tree, _child(tree, c2, ops2), log_path=os.path.join(sc, "node2.log"))
+        k2 = 0
+        try:
+            while True:
+                ev = node.step()
+                if ev is None:
+                    break
+                if isinstance(ev, dict):
+                    t2.feed(ev)
+                    continue
+                res.trace.add("r", k2, ev.kind, ev.p1, ev.p2)
+                obs.observe("restart+%d" % k2, ev, t2, "restart")
+                res.evals += 1
+                node.go()
+                k2 += 1
+        finally:
+            node.kill()
+        obs.observe("restart+end", None, t2, "restart_closed")
+        res.fault("real_sigkill_then_restart")
     finally:
         if not os.environ.get("VSIM_KEEP"):
             shutil.rmtree(sc, ignore_errors=True)
@@ -745,6 +849,16 @@ def run_plan(prop, plan):
             _observe_run(prop, plan, r2, kill_at=int(kf * N))
             res.faults["real_sigkill"] = res.faults.get("real_sigkill", 0) + r2.faults.get("real_sigkill", 0)
             res.evals += 1
+        rf = plan.get("restart_frac")
+        if rf is not None and N:
+            r4 = K.RunResult()
+            _restart_run(prop, plan, r4, int(rf * N))
+            for v in r4.violations:
+                v["sig"]["restart"] = True
+                res.violations.append(v)
+            for kk, vv in list(r4.faults.items()) + list(r4.probes.items()):
+                (res.faults if kk in r4.faults else res.probes)[kk] = (res.faults if kk in r4.faults else res.probes).get(kk, 0) + vv
+            res.evals += r4.evals
         wpos = [i for i, s in enumerate(oplist) if s.startswith(("pwrite ", "write "))]
         for f, frac in plan.get("torn") or []:
             if not wpos:
